@@ -661,7 +661,8 @@ fn history_case(rng: &mut Rng, maxr: u64, nsteps: usize, wrap: bool, report: &mu
                 4 => (se + EPOCHS_PER_PARTITION - cur).max(2) - 1, // just before the rotation
                 _ => 1 + rng.below(3),
             };
-            let k = if wrap && remaining_wrap > 0 { let k2 = k.max(rng.range(300, 900)).min(remaining_wrap); remaining_wrap -= k2; k2 } else { k };
+            // the wrap case walks the whole ring (191 partitions x 100 epochs) in large strides
+            let k = if wrap && remaining_wrap > 0 { let k2 = k.max(rng.range(700, 1600)).min(remaining_wrap); remaining_wrap -= k2; k2 } else { k };
             do_next(&mut ledger, &mut h, k);
         } else {
             do_sys(&mut ledger, &mut h);
@@ -678,11 +679,28 @@ fn history_case(rng: &mut Rng, maxr: u64, nsteps: usize, wrap: bool, report: &mu
     for tx in replays {
         do_submit(&mut ledger, &mut h, &tx, &mut ids);
     }
+    if wrap && remaining_wrap > 0 {
+        // not enough epoch-change steps were drawn: finish the wrap, then replay what is still effective
+        do_next(&mut ledger, &mut h, remaining_wrap);
+        let (cur, _, _) = observe(&mut ledger);
+        let again: Vec<Tx> = pool
+            .iter()
+            .filter(|t| t.executable.is_some() && t.intents.iter().any(|i| h.committed.get(&i.id).map_or(false, |e| cur < *e)))
+            .take(12)
+            .cloned()
+            .collect();
+        for tx in again {
+            do_submit(&mut ledger, &mut h, &tx, &mut ids);
+        }
+    }
     report.count_n("hist_steps", h.steps.len() as u64);
     report.count_n("hist_commits", h.n_commits);
     report.count_n("hist_replays_rejected", h.n_replay_rejected);
     report.count_n("hist_epoch_changes", h.n_epochs);
     report.count_n("hist_partition_rotations", h.n_partition_rotations);
+    if h.n_partition_rotations >= (PARTITION_RANGE_END as u64 - PARTITION_RANGE_START as u64 + 1) {
+        report.count("hist_full_ring_wrap_cases");
+    }
     let nontrivial = h.n_replay_rejected > 0 && h.n_partition_rotations > 0;
     let term = format!("CHist {} {} {}", maxr, init_coq, coq_list(h.steps.iter().cloned()));
     (term, h.failures, nontrivial)
@@ -726,7 +744,7 @@ fn main() {
         let case_index = idx as usize;
         idx += 1;
         let wrap = thorough && j == 0 && !args.oracle_only;
-        let nsteps = if wrap { 120 } else if thorough { 80 } else { 45 };
+        let nsteps = if wrap { 160 } else if thorough { 80 } else { 45 };
         let (term, failures, nontrivial) = history_case(&mut rng, maxr, nsteps, wrap, &mut report);
         report.case(&term, nontrivial);
         if nontrivial {
@@ -747,6 +765,9 @@ fn main() {
     report.floor("valid_refused", (n_valid as u64) / 10);
     report.floor("hist_replays_rejected", n_hist as u64);
     report.floor("hist_partition_rotations", 1);
+    if thorough && !args.oracle_only {
+        report.floor("hist_full_ring_wrap_cases", 1);
+    }
     cw.write(&args.out, args.shards).unwrap();
     report.write(&args.out).unwrap();
 }
